@@ -100,7 +100,11 @@ def render(ir, module_name: str, eq: bool = True) -> str:
         if not c["fields"]:
             lines.append("    pass")
         for f in c["fields"]:
-            lines.append(f"    {f['name']}: {annotation(f['t'], names, quote=not future)} = {default_of(f['t'])}")
+            default = default_of(f["t"])
+            if f.get("kw_only"):
+                # a keyword-only constructor parameter
+                default = default[:-1] + ", kw_only=True)" if default.startswith("field(") else f"field(default={default}, kw_only=True)"
+            lines.append(f"    {f['name']}: {annotation(f['t'], names, quote=not future)} = {default}")
         lines.append("")
     return "\n".join(lines)
 
@@ -286,7 +290,7 @@ def classify(t) -> Dict[str, Any]:
 @st.composite
 def model_ir(draw, max_classes=6, grammar="diagram", allow_self=True, allow_ext=True, allow_type=True,
              allow_seq=True, allow_set=True, allow_self_collection=True, allow_underscore=True, require_builtin=False,
-             allow_mutual=True, extras=False, uid=False, allow_mixin=False, chain_bias=False):
+             allow_mutual=True, extras=False, uid=False, allow_mixin=False, chain_bias=False, allow_kw_only=False):
     """grammar: "diagram" (C17: everything) or "orm" (C06: the documented modelling rules)"""
     n = draw(st.integers(1, max_classes))
     classes = []
@@ -376,6 +380,8 @@ def model_ir(draw, max_classes=6, grammar="diagram", allow_self=True, allow_ext=
             if allow_underscore and draw(st.integers(0, 7)) == 0:
                 name = "_" + name
             classes[i]["fields"].append({"name": name, "t": t})
+            if allow_kw_only and draw(st.integers(0, 5)) == 0:
+                classes[i]["fields"][-1]["kw_only"] = True
             used_names[i].add(name)
     if require_builtin and not any(classify(f["t"])["is_builtin"] and f["t"]["k"] in SCALARS for c in classes for f in c["fields"] if not f["name"].startswith("_")):
         classes[0]["fields"].append({"name": "f0_b", "t": {"k": "int"}})
